@@ -6,15 +6,19 @@ EXTENDS Integers, Sequences, FiniteSets, TLC, Json, Pdu
 Kinds == {"aggr", "ext", "aggrconf", "extconf", "aggrpush"}
 (* blocking = blocking TCP client, http = blocking HTTP client (scripted libcurl), async / ha = asynchronous TCP service, high-availability service *)
 Transports(k) == IF k = "aggr" THEN {"blocking", "http", "async", "ha"} ELSE IF k = "aggrpush" THEN {"async", "ha"} ELSE {"blocking", "http"}
-Cases == {[kind |-> k, transport |-> t, alg |-> a, dev |-> d] : k \in Kinds, t \in {"blocking", "http", "async", "ha"}, a \in {1, 5}, d \in Deviations}
+Cases == {[kind |-> k, transport |-> t, alg |-> a, dev |-> d] : k \in Kinds, t \in {"blocking", "http", "async", "ha"}, a \in {1, 5}, d \in Deviations \ {[d |-> "splice", r |-> "-"]}}
+(* the (deprecated, still selectable) PDU version 1 as the CONFIGURED version of both services, on the blocking client *)
+V1Cases == {[kind |-> k, transport |-> "blocking", alg |-> 1, dev |-> d, ver |-> 1] : k \in {"aggr", "ext"},
+               d \in {[d |-> x, r |-> "-"] : x \in {"none", "otherkey", "otherver", "nomac", "nohdr", "splice"}} \cup {[d |-> "flip", r |-> r] : r \in {"header", "payload", "digest"}}}
 (* A context has TWO configured PDU versions, one per service.  The MAC scheme of a service's PDUs (and what it accepts) follows that service's *)
 (* own version: configuring the OTHER service to v1 changes nothing for this one.  `other` = the other service's configured version.            *)
 OtherVerCases == {[kind |-> k, transport |-> "blocking", alg |-> 1, dev |-> [d |-> x, r |-> "-"], other |-> "v1"] : k \in {"aggr", "ext"}, x \in {"none", "otherkey", "otherver", "nomac"}}
 VARIABLE c
-Init == c \in {x \in Cases : x.transport \in Transports(x.kind)} \cup OtherVerCases
+Init == c \in {x \in Cases : x.transport \in Transports(x.kind)} \cup OtherVerCases \cup V1Cases
 Next == UNCHANGED c
 Spec == Init /\ [][Next]_c
 (* C06: content is delivered only for the undeviated PDU *)
-OnlyAuthenticDelivered == Delivered(2, c.alg, c.dev) <=> c.dev.d = "none"
-Emit == PrintT("CASE " \o ToJson([kind |-> c.kind, transport |-> c.transport, alg |-> c.alg, dev |-> c.dev, other |-> (IF "other" \in DOMAIN c THEN c.other ELSE "v2"), delivered |-> Delivered(2, c.alg, c.dev)]))
+ConfVer == IF "ver" \in DOMAIN c THEN c.ver ELSE 2
+OnlyAuthenticDelivered == Delivered(ConfVer, c.alg, c.dev) <=> c.dev.d = "none"
+Emit == PrintT("CASE " \o ToJson([kind |-> c.kind, transport |-> c.transport, alg |-> c.alg, dev |-> c.dev, other |-> (IF "other" \in DOMAIN c THEN c.other ELSE "v2"), ver |-> ConfVer, delivered |-> Delivered(ConfVer, c.alg, c.dev)]))
 =============================================================================
